@@ -49,7 +49,7 @@ fn main() {
             &format!("frag:{}", fam.name),
             frag_cases,
             || oracle::arb_frag(fam),
-            |c| oracle::check_frag(fam, c),
+            |c| child::guarded_verdict(|| oracle::check_frag(fam, c)),
         );
         ctx.prop(
             &format!("mut:{}", fam.name),
